@@ -64,6 +64,15 @@ class Injector:
         self.sleeps = 0
         self.chmod_failed = False
         self.extra: List[str] = []
+        self.siblings = [dest.name + ".meta"]     # other destinations written by the same caller (not under test)
+        self.target_fd = None
+        self.dir_synced = False
+
+    def is_target_tmp(self, path) -> bool:
+        n = Path(path).name
+        if Path(path).parent != self.dest.parent or not n.startswith(self.dest.name + "."):
+            return False
+        return not any(n == sname or n.startswith(sname + ".") for sname in self.siblings)
 
     # ---- directory observation -------------------------------------------------------------
     def classify(self, data: Optional[bytes]) -> str:
@@ -86,7 +95,8 @@ class Injector:
         except FileNotFoundError:
             destc = None
         dcls = self.classify(destc)
-        others = sorted(p.name for p in d.iterdir() if p.name != self.dest.name and not p.name.startswith("_"))
+        others = sorted(p.name for p in d.iterdir() if p.name != self.dest.name and not p.name.startswith("_")
+                        and not any(p.name == sname or p.name.startswith(sname + ".") for sname in self.siblings))
         if not others:
             tcls = "none"
         else:
@@ -207,16 +217,22 @@ def _install(inj: Injector):
             if p == inj.dest:
                 inj.problems.append(("DestOldOrNew", f"destination opened for writing in place (mode {mode})"))
                 return FileProxy(builtins.open(path, mode, *a, **k), False)
+            if not inj.is_target_tmp(p):
+                return builtins.open(path, mode, *a, **k)
             if inj.at("open") == "err":
                 raise OSError(errno.EACCES, "verif: open")
-            return FileProxy(builtins.open(path, mode, *a, **k), True)
-        if p == inj.dest and inj.replaced:
+            fp = FileProxy(builtins.open(path, mode, *a, **k), True)
+            inj.target_fd = fp.f.fileno()
+            return fp
+        if p == inj.dest and inj.replaced and not inj.dir_synced:
             if inj.at("fsync_final") == "err":
                 raise OSError(errno.EIO, "verif: open final")
         return builtins.open(path, mode, *a, **k)
 
     class TempProxy:
         def NamedTemporaryFile(self, *a, **k):
+            if k.get("prefix") != inj.dest.name + "." or inj.replaced:
+                return _real_tempfile.NamedTemporaryFile(*a, **k)
             if inj.at("mktmp") == "err":
                 raise OSError(errno.ENOSPC, "verif: mktmp")
             d = k.get("dir")
@@ -234,13 +250,13 @@ def _install(inj: Injector):
 
     class OsProxy:
         def fsync(self, fd):
-            if not inj.replaced:
+            if not inj.replaced and fd == inj.target_fd:
                 if inj.at("fsync") == "err":
                     raise OSError(errno.EIO, "verif: fsync")
             return real_os.fsync(fd)
 
         def chmod(self, path, mode, *a, **k):
-            if Path(path) == inj.dest:
+            if Path(path) == inj.dest or not inj.is_target_tmp(path):
                 return real_os.chmod(path, mode, *a, **k)
             if inj.chmod_failed:
                 return real_os.chmod(path, mode, *a, **k)
@@ -272,7 +288,8 @@ def _install(inj: Injector):
             return self.replace(src, dst, *a, **k)
 
         def open(self, path, flags, *a, **k):
-            if inj.replaced and Path(path) == inj.dest.parent:
+            if inj.replaced and not inj.dir_synced and Path(path) == inj.dest.parent:
+                inj.dir_synced = True
                 if inj.at("fsync_dir") == "err":
                     raise OSError(errno.EIO, "verif: open dir")
             return real_os.open(path, flags, *a, **k)
@@ -320,6 +337,14 @@ def _invoke(caller: str, dest: Path, new_payload):
     elif caller == "sidecar":
         import clematis.engine.snapshot as S
         S._write_sidecar_meta(str(dest)[:-len(".meta")], schema_version="v1")
+    elif caller == "snapshot_body":
+        import clematis.engine.snapshot as S
+        from types import SimpleNamespace
+        ctx = SimpleNamespace(cfg={"t4": {"snapshot_dir": str(dest.parent)}}, agent_id="A", turn_id=3)
+        S.write_snapshot(ctx, new_payload["state"], "7", 1, [])
+    elif caller == "snapshot_auto":
+        import clematis.engine.snapshot as S
+        S.write_snapshot_auto(str(dest.parent), etag_from=None, etag_to="7", payload=new_payload["payload"])
     elif caller == "replace_only":
         A.atomic_replace(Path(str(dest) + ".src"), dest)
     else:
@@ -343,6 +368,13 @@ def _payload(caller: str, size: int, dest: Path):
         return {"records": recs}, lines.encode("utf-8")
     if caller == "sidecar":
         return {}, None      # content computed by the callee; determined by a dry run
+    if caller == "snapshot_body":
+        st = {"version_etag": "7", "graph": {"nodes": {"n.1": {"id": "n.1"}}, "edges": {"a→b": {"src": "a", "dst": "b", "rel": "coact", "weight": 0.5}},
+                                             "meta": {"schema": "v1.1", "merges": [], "splits": [], "promotions": [], "concept_nodes_count": 0, "edges_count": 1}},
+              "pad": "x" * size}
+        return {"state": st}, None
+    if caller == "snapshot_auto":
+        return {"payload": {"version_etag": "7", "gel": {"edges": {"a.b→c": {"w": 0.25}}}, "pad": "y" * size}}, None
     if caller == "replace_only":
         b = (b"GEN-%06d|" % size) * max(1, size // 11)
         return {}, b
@@ -358,7 +390,7 @@ def run_plan(case) -> List[Tuple[str, str]]:
     try:
         d = Path(work) / "dir"
         d.mkdir()
-        dest = d / ("state_A.json" if caller not in ("rewrite_jsonl", "sidecar") else ("t1.jsonl" if caller == "rewrite_jsonl" else "state_A.json.meta"))
+        dest = d / {"rewrite_jsonl": "t1.jsonl", "sidecar": "state_A.json.meta", "snapshot_auto": "snapshot-7.full.json"}.get(caller, "state_A.json")
         os.environ["CLEMATIS_LOG_DIR"] = str(d)
         os.environ["SOURCE_DATE_EPOCH"] = "1700000000"
         old = OLD if case["old"] else None
@@ -366,7 +398,8 @@ def run_plan(case) -> List[Tuple[str, str]]:
         if new is None:   # dry run to learn the callee-computed content
             _invoke(caller, dest, payload)
             new = dest.read_bytes()
-            dest.unlink()
+            for q_ in list(d.iterdir()):
+                q_.unlink()
         if old is not None:
             dest.write_bytes(old)
         if caller == "replace_only":
@@ -488,7 +521,7 @@ def check(run) -> None:
         from ..tlc import TLCError
         raise TLCError("AtomicWrite with ShortWriteHandled=FALSE should violate DestOldOrNew")
     run.ok("Model.short_write_counterexample_found")
-    callers = ["bytes", "text", "json", "rewrite_jsonl", "sidecar"]
+    callers = ["bytes", "text", "json", "rewrite_jsonl", "sidecar", "snapshot_body", "snapshot_auto"]
     sizes = [40, 9000] if q else [1, 40, 9000, 300000]
     cases = []
     for p in plans:
